@@ -334,6 +334,54 @@ func runC17(c *Ctx) {
 				Basis: why, Detail: "decodeRRs returns the error " + msg + " under no malformation test: a well-formed record (an ip6.arpa or service PTR, say) fails the whole message and none of its records is stored"})
 		})
 	}
+	// every record that passes the length tests reaches the dispatch on its type: no path from the record-length test to
+	// the next iteration avoids the comparisons of the type field (a filter on class, TTL or anything else in between drops
+	// well-formed records - mDNS sets the top bit of the class on the records a responder owns)
+	r.Rule("dispatch", "every record that passes the length tests reaches the dispatch on its type", 1)
+	if fn := c.P.Method("", "DNSEntry", "decodeRRs"); fn != nil {
+		var typ ssa.Value
+		core.EachInstr(fn, func(i ssa.Instruction) {
+			if bo, ok := i.(*ssa.BinOp); ok && bo.Op == token.EQL {
+				if k, isC := bo.Y.(*ssa.Const); isC && k.Value != nil && k.Int64() == 28 {
+					typ = bo.X
+				}
+			}
+		})
+		isDispatch := func(i ssa.Instruction) bool {
+			bo, ok := i.(*ssa.BinOp)
+			return ok && typ != nil && bo.X == typ
+		}
+		st, det := core.Undecided, "the type dispatch or the record loop of decodeRRs was not recognised"
+		if typ != nil {
+			for _, l := range core.CFG(fn).Loops() {
+				// the last length test inside the loop: an If on "...>len(arg1)" that dominates the dispatch
+				var gate *ssa.If
+				core.EachInstr(fn, func(i ssa.Instruction) {
+					iff, ok := i.(*ssa.If)
+					if !ok || !l.Blocks[iff.Block()] {
+						return
+					}
+					if strings.HasSuffix(norm(iff.Cond), ">len(arg1))") {
+						gate = iff // blocks are visited in order: the last length test of the loop body
+					}
+				})
+				if gate == nil || len(l.Head.Instrs) == 0 {
+					continue
+				}
+				pass := gate.Block().Succs[1] // the test holds on Succs[0] (the refusal)
+				st, det = core.Proved, ""
+				if len(pass.Instrs) > 0 {
+					first := pass.Instrs[0]
+					if !isDispatch(first) && reachesWithout(first, l.Head.Instrs[0], isDispatch) {
+						st = core.Violated
+						det = "decodeRRs can go from the record-length test at " + c.P.Pos(core.PosOf(gate)) + " to the next record without comparing the record type: records are skipped by something other than their type"
+					}
+				}
+			}
+		}
+		r.Add(core.Obligation{Rule: "dispatch", Key: "dispatch decodeRRs", Func: core.FuncName(fn), Pos: c.P.Pos(fn.Pos()), Status: st,
+			Basis: "no path from the last record-length test to the loop head avoids the type comparisons", Detail: det})
+	}
 	r.Rule("record-loop", "loops over record arrays read every field relative to the loop counter", 10)
 	runRecordLoops(c, []string{"layer_dns.go", "handlers/dns_naming/nbns.go", "handlers/dns_naming/mdns.go", "handlers/dns_naming/dns.go", "handlers/dns_naming/llmnr.go", "handlers/dns_naming/ssdp.go"}, "record-loop")
 
